@@ -1,4 +1,4 @@
-import CifModel.Lemmas.LexerStream
+import CifModel.Lemmas.LexerKw
 /-
   Property C01 — well-formed CIF parses to exactly the content it denotes: THE LEXICAL LAYER.
 
@@ -246,6 +246,89 @@ theorem C01_lex_key (p : Presentation) (hp : p = .squote ∨ p = .dquote ∨ p =
   · exact triple 39 (Or.inr rfl) hadm hfit
   · exact triple 34 (Or.inl rfl) hadm hfit
 
+/-- **C01_lex_name** — a data name (`_` followed by non-blank characters) is read as one NAME token whose text is the
+    whole name including the underscore. -/
+theorem C01_lex_name (dia : Dialect) (s ctx : Str) (line col : Nat) (lt : TokType) (pol : Policy) (log : List Report)
+    (haw : afterWsOf lt = true) (hok : nonBlankOk dia s = true) (hctx : wsOrEnd ctx = true) :
+    nextToken dia ⟨95 :: (s ++ ctx), line, col, lt⟩ pol log
+      = .ok (⟨.name, 95 :: s, line, col + 1 + colAdd s⟩, ⟨ctx, line, col + 1 + colAdd s, .name⟩) log := by
+  have := stepTok_name dia s ctx line col pol log hok (wsOrEnd_iff hctx)
+  exact stepTok_tok_nextToken (by rw [haw]; exact this)
+
+/-- **C01_lex_bracket** — `[` `]` `{` `}` are one-character tokens in CIF 2.0; the closing ones need no whitespace before
+    them (any previous token type), the opening ones none after them. -/
+theorem C01_lex_bracket (c : Nat) (ty : TokType) (lt : TokType)
+    (h : (c = 91 ∧ ty = .olist ∧ afterWsOf lt = true) ∨ (c = 93 ∧ ty = .clist) ∨ (c = 123 ∧ ty = .otable ∧ afterWsOf lt = true)
+       ∨ (c = 125 ∧ ty = .ctable))
+    (r : Str) (line col : Nat) (pol : Policy) (log : List Report) :
+    nextToken .cif2 ⟨c :: r, line, col, lt⟩ pol log = .ok (⟨ty, [c], line, col + 1⟩, ⟨r, line, col + 1, ty⟩) log
+    ∧ (afterWsOf .olist = true ∧ afterWsOf .otable = true) :=
+  ⟨stepTok_tok_nextToken (stepTok_bracket c ty (afterWsOf lt) h r line col pol log), rfl, rfl⟩
+
+/-- **C01_lex_keyword** — `data_<code>` is a BLOCK_HEAD token and `save_<code>` a FRAME_HEAD token whose text is the code
+    (any non-blank characters, brackets included), `save_` alone is FRAME_TERM, `loop_` is LOOPKW; all case-insensitive. -/
+theorem C01_lex_keyword (dia : Dialect) (a b c d e : Nat) (code ctx : Str) (line col : Nat) (lt : TokType) (pol : Policy)
+    (log : List Report) (haw : afterWsOf lt = true) (hcode : nonBlankOk dia code = true) (hctx : wsOrEnd ctx = true) :
+    ((lowerAscii a = 100 ∧ lowerAscii b = 97 ∧ lowerAscii c = 116 ∧ lowerAscii d = 97 ∧ lowerAscii e = 95) → code ≠ [] →
+      nextToken dia ⟨a :: b :: c :: d :: e :: (code ++ ctx), line, col, lt⟩ pol log
+        = .ok (⟨.blockHead, code, line, col + 5 + colAdd code⟩, ⟨ctx, line, col + 5 + colAdd code, .blockHead⟩) log)
+    ∧ ((lowerAscii a = 115 ∧ lowerAscii b = 97 ∧ lowerAscii c = 118 ∧ lowerAscii d = 101 ∧ lowerAscii e = 95) →
+      nextToken dia ⟨a :: b :: c :: d :: e :: (code ++ ctx), line, col, lt⟩ pol log
+        = .ok (⟨if code = [] then .frameTerm else .frameHead, code, line, col + 5 + colAdd code⟩,
+               ⟨ctx, line, col + 5 + colAdd code, if code = [] then .frameTerm else .frameHead⟩) log)
+    ∧ ((lowerAscii a = 108 ∧ lowerAscii b = 111 ∧ lowerAscii c = 111 ∧ lowerAscii d = 112 ∧ lowerAscii e = 95) →
+      nextToken dia ⟨a :: b :: c :: d :: e :: ctx, line, col, lt⟩ pol log
+        = .ok (⟨.loopKw, [], line, col + 5⟩, ⟨ctx, line, col + 5, .loopKw⟩) log) := by
+  refine ⟨?_, ?_, ?_⟩
+  · intro hw hne
+    have := stepTok_kw dia true a b c d e code ctx (by simpa using hw) hcode (fun _ => hne) (wsOrEnd_iff hctx) line col pol log
+    simp only [if_true] at this
+    exact stepTok_tok_nextToken (by rw [haw]; exact this)
+  · intro hw
+    have := stepTok_kw dia false a b c d e code ctx (by simpa using hw) hcode (fun h => by cases h) (wsOrEnd_iff hctx) line col pol log
+    simp only [Bool.false_eq_true, if_false] at this
+    exact stepTok_tok_nextToken (by rw [haw]; exact this)
+  · intro hw
+    have := stepTok_loop dia a b c d e ctx hw (wsOrEnd_iff hctx) line col pol log
+    exact stepTok_tok_nextToken (by rw [haw]; exact this)
+
+/-- FULL statement for a whitespace-delimited value directly followed by a closing bracket or brace (CIF 2.0): it ends
+    before the bracket.  This is what the CIF 2.0 grammar demands; it is FALSE of the current scanner (open finding F33,
+    `C01_cex_semicolon_keyword_bracket`), true with the extra hypothesis of `C01_lex_value_bare_close_partial`. -/
+def C01_lex_value_bare_close_full : Prop :=
+  ∀ (s : Str) (d : Nat) (rest : Str) (line col : Nat) (lt : TokType) (pol : Policy) (log : List Report),
+    (d = 93 ∨ d = 125) → afterWsOf lt = true → admissible .cif2 .bare s = true → startOk .bare s col = true →
+    nextToken .cif2 ⟨s ++ d :: rest, line, col, lt⟩ pol log
+      = .ok (⟨.value, s, line, col + colAdd s⟩, ⟨d :: rest, line, col + colAdd s, .value⟩) log
+
+/-- **C01_lex_value_bare_close_partial** — the bare presentation directly followed by `]` or `}` (CIF 2.0), for every
+    admissible string EXCEPT those of the shape `;data_…` / `;save_…` (hypothesis `semiKwFree`; missing part = open
+    finding F33: there the current scanner swallows the bracket). -/
+theorem C01_lex_value_bare_close_partial (s : Str) (d : Nat) (rest : Str) (line col : Nat) (lt : TokType) (pol : Policy)
+    (log : List Report) (hd : d = 93 ∨ d = 125) (haw : afterWsOf lt = true)
+    (hadm : admissible .cif2 .bare s = true) (hstart : startOk .bare s col = true) (hkw : semiKwFree s = true) :
+    nextToken .cif2 ⟨s ++ d :: rest, line, col, lt⟩ pol log
+      = .ok (⟨.value, s, line, col + colAdd s⟩, ⟨d :: rest, line, col + colAdd s, .value⟩) log := by
+  obtain ⟨c, r, hs, hstep⟩ := stepTok_bare_close .cif2 rfl s d hd rest line col pol log hadm (by simpa [startOk] using hstart) hkw
+  subst hs
+  exact stepTok_tok_nextToken (by rw [haw]; exact hstep)
+
+/-- the counterexample behind F33, on the model of the current code: after `[ `, the input `;data_x]` is one VALUE token
+    `;data_x]` — the list is never closed. -/
+theorem C01_cex_semicolon_keyword_bracket :
+    admissible .cif2 .bare (a!";data_x") = true ∧ startOk .bare (a!";data_x") 2 = true
+    ∧ (tokenize .cif2 (a!"[ ;data_x]")).1.map (fun t => (t.ty, t.text))
+        = [(.olist, (a!"[")), (.value, (a!";data_x]")), (.end_, [])]
+    ∧ ¬ C01_lex_value_bare_close_full := by
+  refine ⟨by decide, by decide, by decide +kernel, ?_⟩
+  intro h
+  have := h (a!";data_x") 93 [] 1 2 .olist acceptAll [] (Or.inl rfl) rfl (by decide) (by decide)
+  have key : (match nextToken .cif2 ⟨(a!";data_x") ++ [93], 1, 2, .olist⟩ acceptAll [] with
+      | .ok (t, _) _ => t.text | .abort _ _ => []) = (a!";data_x]") := by decide +kernel
+  rw [this] at key
+  revert key
+  decide
+
 /-- **C01_lex_total** — totality of the scanner model.
     (1) fuel suffices: with more fuel than remaining units the loop's answer does not depend on the fuel (so `nextToken`,
         which passes `length + 1`, is the least fixed point of the C loop);
@@ -341,6 +424,10 @@ example : admissible .cif1 .squote (a!"it's") = true ∧ admissible .cif2 .squot
 example : admissible .cif2 .bare (a!"data_x") = false ∧ admissible .cif2 .bare (a!"LOOP_") = false
     ∧ admissible .cif2 .bare (a!"loop_x") = true := by decide
 example : startOk .text (a!"x") 0 = true ∧ startOk .text (a!"x") 3 = false ∧ startOk .bare (a!";x") 0 = false := by decide
+-- names, keywords, brackets; a bare value before a closing bracket
+example : nonBlankOk .cif2 (a!"atom_site[1].x") = true ∧ wsOrEnd [10] = true ∧ semiKwFree (a!";ab") = true
+    ∧ semiKwFree (a!"data") = true ∧ semiKwFree (a!";SAVE_f") = false := by decide
+example : lowerAscii 68 = 100 ∧ lowerAscii 97 = 97 ∧ lowerAscii 84 = 116 := by decide
 -- whitespace atoms, and an over-long line making `linesFit` fail
 example : (WsAtom.comment (a!"c d")).ok .cif2 = true ∧ renderWs [.blank 32, .comment (a!"c"), .eol] = (a!" #c") ++ [10, 10] := by decide
 example : linesFit 0 (List.replicate 2049 97 ++ [10]) = false ∧ linesFit 0 (List.replicate 2048 97 ++ [10]) = true := by decide +kernel
